@@ -5,7 +5,7 @@ Template grammar (line based):
   //! unit: u02                      header lines (key: value); keys: unit, properties, assume, trusted, note
   ...verus text...                   copied verbatim (spec fns, lemmas, env stubs)
   //@const <file> NAME NAME ...      extract const items (one line, no //@end)
-  //@fields write|read NAME          (inside //@extract of a fn) R21: replace the fn by `spec fn NAME() -> Seq<&str>`: the field names it writes / reads, in order
+  //@fields write|read|tlvwrite|tlvread NAME [only=..] [alias=T:local>T:canonical,..]   (inside //@extract of a fn) R21: replace the fn by `spec fn NAME() -> Seq<&str>`: the field names it writes / reads, in order
   //@extract <file> :: <item path>   start of an extraction block for one item (fn/struct/enum/const/impl)
   //@strip mod mod ...               R4: extra module prefixes to strip
   //@cfg atom=true|false             R2: override of the production cfg table
@@ -414,6 +414,12 @@ class Unit:
                 if arm >= len(groups):
                     raise Maintenance('%s:%d: R21: no TLV invocation number %d' % (self.path, fdir.line, arm))
                 names = groups[arm]
+            alias = next((a[6:].split(',') for a in fdir.arg.split()[2:] if a.startswith('alias=')), None)
+            if alias is not None:
+                # `alias=T:local>T:canonical,...` (TLV tables): a record whose value travels under another NAME on this side (a local the reader later moves into
+                # the field, a legacy spelling) is listed under the canonical name; every renaming is spelled out in the unit and is part of its trusted text
+                amap = dict(x.split('>', 1) for x in alias)
+                names = [(amap.get(n, n), l) for (n, l) in names]
             only = next((a[5:].split(',') for a in fdir.arg.split()[2:] if a.startswith('only=')), None)
             if only is not None:
                 # `only=a,b,c`: the subsequence of the listed names (nested records and renamed temporaries of a long function are left out)
